@@ -338,7 +338,7 @@ CHECKS["C09"] = dict(
         dict(name="H09-suspend", entry="backend/posix.VfVersionsSuspend", reach=["program-done", "paged"], **_FS),
     ],
     assumptions=["file-system model; ULIDs are fresh increasing ids"],
-    outside=["programs longer than 2 (quick) / 3 (thorough) operations", "status switches other than enabled -> suspended -> enabled with one operation while suspended (H09-suspend: 3-4 operations of put / delete / delete newest by id)", "version listings over several keys, with delimiter or prefix, page sizes above 2", "delete of a non-newest version by id"],
+    outside=["programs longer than 2 (quick) / 3 (thorough) operations", "status switches other than enabled -> suspended -> enabled with one operation while suspended (H09-suspend quick: 3-4 operations of put / delete / delete newest by id; thorough: two operations while suspended or a second suspension, 4-5 operations, or all five writer kinds on 3-4 operations)", "version listings over several keys, with delimiter or prefix, page sizes above 2", "delete of a non-newest version by id"],
 )
 
 CHECKS["C11"] = dict(
